@@ -41,12 +41,17 @@ def _worker(mod, master_seed, widx, nworkers, nruns, deadline, wall_timeout, kee
         "samples": [], "notes": {}, "first_k_skipped": None,
     }  # fmt: skip
     k = widx
+    gen_case = getattr(mod, "gen_case", None)
     while k < nruns:
         if deadline is not None and time.monotonic() > deadline:
             agg["first_k_skipped"] = k
             break
-        rs = derive_seed(master_seed, mod.PROP, k)
-        spec = mod.gen_run(rs)
+        if gen_case is not None:
+            spec = gen_case(master_seed, k)
+            rs = spec["seed"]
+        else:
+            rs = derive_seed(master_seed, mod.PROP, k)
+            spec = mod.gen_run(rs)
         res = bootstrap.run_in_fork(mod.execute, spec, wall_timeout)
         agg["runs"] += 1
         if "harness" in res:
@@ -387,7 +392,9 @@ def check_property(mod, tier, master_seed, nruns, nworkers, time_budget, level, 
             "not_exercised": "real file I/O timing; get_system_default (unimplemented in the repository)",
         },
     }  # fmt: skip
-    if extra_cov:
+    if callable(extra_cov):
+        cov.update(extra_cov(agg))
+    elif extra_cov:
         cov.update(extra_cov)
     ev = {
         "property_id": prop,
